@@ -223,6 +223,9 @@ func isCtxDone(v ssa.Value) bool {
 }
 
 func c07(r *core.Run) {
+	// fields of non-escaping local struct objects are followed like captured locals (c07_util.go)
+	resolveObjFields = true
+	defer func() { resolveObjFields = false }()
 	defer c07Extra(r)
 	p := r.P
 	r.Explanation = "Decides on the SSA of lib/mr, for every path incl. panic paths: each goroutine that can run a caller-supplied generator/mapper/reducer defers (before the call) a recover that forwards the panic value to the once-only panic channel; WaitGroup Add(1) precedes each mapper `go` and Done is deferred exactly once; every channel that is drained, ranged or handed to a callback has exactly one close site, placed in a defer that runs on all paths or in sync.Once.Do, the collector only after wg.Wait and output only together with done; each worker token taken by `pool <- x` is released exactly once (no-item path or the spawned goroutine's defer), pool capacity is the configured worker count which every writer keeps >= 1; cancel is only reachable through a sync.Once wrapper, records the error (nil -> ErrCancelWithNil) before finishing; the reducer goroutine's defer drains the collector and finishes, the mapper dispatcher's defer drains the source; the final select maps ctx -> DeadlineExceeded, panic -> drain(output) and re-panic with the same value, output -> cancel error first, then value / ErrReduceNoOutput; a second reducer write panics; guarded writes are dropped after done/ctx."
@@ -745,8 +748,8 @@ func c07(r *core.Run) {
 		for _, cb := range cancelBodies {
 			o.Site(1, core.FuncName(cb))
 			// every place where the body's closure is created (the inlined copies of its creator share it)
-			created := closureSites(cb)
-			if cb.Parent() == nil || len(created) == 0 {
+			created := bodyCreationSites(cb)
+			if len(created) == 0 {
 				o.Fail(p.Pos(cb.Pos()), "%s records the cancel error but is not a closure", core.FuncName(cb))
 				continue
 			}
@@ -1125,6 +1128,9 @@ func c07(r *core.Run) {
 		runsBody := func(g *ssa.Function) bool {
 			if g == nil {
 				return false
+			}
+			if t := boundTarget(g); t != nil && isBody[t] {
+				return true // the method value x.m of the method that is the body
 			}
 			for _, a := range core.WithAnon(g) {
 				if isBody[a] {
@@ -1682,4 +1688,44 @@ func guardedByHelper(m *mrCtx, f *ssa.Function, s ssa.Instruction) string {
 		}
 	}
 	return why
+}
+
+// bodyCreationSites lists the places where the function value running body cb comes into being:
+// the MakeClosure sites of a closure (or of a bound-method wrapper a variant has inlined the
+// method into), or - cb being a method that is never called by name - the sites where it is
+// bound to its receiver as a method value (x.m). Empty when cb is a function or method that can
+// (also) be called directly.
+func bodyCreationSites(cb *ssa.Function) []*ssa.MakeClosure {
+	if cb.Parent() != nil || inlinedBoundWrapper(cb) {
+		return closureSites(cb)
+	}
+	ix := indexOf(pkgOf(cb))
+	if ix == nil || cb.Signature.Recv() == nil || len(ix.sites[cb]) > 0 {
+		return nil
+	}
+	var out []*ssa.MakeClosure
+	for g, ms := range ix.mcs {
+		if boundTarget(g) == cb {
+			out = append(out, ms...)
+		}
+	}
+	// any other use of the method as a value (a method expression, a thunk) is not understood
+	for _, f := range ix.funcs {
+		for _, b := range f.Blocks {
+			for _, in := range b.Instrs {
+				if _, isMC := in.(*ssa.MakeClosure); isMC {
+					continue
+				}
+				for _, op := range in.Operands(nil) {
+					if fv, ok := (*op).(*ssa.Function); ok && (fv == cb || boundTarget(fv) == cb) {
+						if c, isCall := in.(ssa.CallInstruction); isCall && c.Common().StaticCallee() == fv {
+							continue
+						}
+						return nil
+					}
+				}
+			}
+		}
+	}
+	return out
 }
